@@ -128,15 +128,28 @@ class RngStub:
     """The legacy global NumPy generator as a symbolic source: every draw is a fresh symbolic value in the
     documented range; seed(s) is recorded.  Only this API exists inside rebound code (C07 discipline)."""
 
-    def __init__(self, eng, sym_ints=False):
+    def __init__(self, eng, sym_ints=False, functional=None):
         self.eng = eng
         self.state = ("unseeded",)
         self.draws = []
         self.sym_ints = sym_ints   # randint returns symbolic integers (no forking) instead of enumerating values
+        # functional mode (2-safety for C07): a draw is the variable named by (generator state, draw index); the state is
+        # "prior<tag>" until seed(s) is called, then "seed<s>".  Two executions from different prior states therefore
+        # see the same draws exactly when the code seeded the generator before drawing.
+        self.functional = functional
+        self.fstate = None if functional is None else f"prior{functional}"
+        self.k = 0
+
+    def _draw_name(self, kind):
+        self.k += 1
+        return f"{kind}@{self.fstate}#{self.k}"
 
     def seed(self, s=None):
         self.state = ("seeded", s)
         self.draws.append(("seed", s))
+        if self.functional is not None:
+            self.fstate = f"seed[{s.e if hasattr(s, 'e') else s}]"
+            self.k = 0
 
     def _arr(self, shape, mk):
         if shape is None or shape == ():
@@ -156,7 +169,7 @@ class RngStub:
         hi = np.broadcast_to(np.asarray(_raw(high), dtype=object), size if size is not None else np.shape(_raw(high)))
         out = np.empty(lo.shape, dtype=object)
         for idx in np.ndindex(lo.shape):
-            v = eng.fresh_real("unif")
+            v = eng.real(self._draw_name("unif")) if self.functional is not None else eng.fresh_real("unif")
             if not eng.concrete:
                 from symnp import lift
                 eng.assume(z3.And(v.e >= lift(lo[idx]), v.e < lift(hi[idx])))
